@@ -16,7 +16,8 @@ From Coq Require Import List ZArith NArith Bool.
 Import ListNotations.
 From Omega Require Import L5Cover.Boxes L5Cover.BoxesProofs L5Cover.MinCover
   L5Cover.MinCoverProofs L5Cover.MinCoverBounded L5Cover.MinCoverBounded3L
-  L5Cover.MinCoverBounded4.
+  L5Cover.MinCoverBounded4 L5Cover.BoundsProofs L5Cover.FloorLit
+  L5Cover.FloorLitProofs.
 Open Scope Z_scope.
 
 (* ---- (1) the order used by the code is inclusion of boxes *)
@@ -110,6 +111,50 @@ Example C09_refuted_unrepaired_returns :
             length K = 5%nat.
 Proof. exact minimize_unrepaired_fails. Qed.
 
+(* the model computes floors/ceilings as joins/meets; the quantified BDD
+   formulas of cover._floor / _contains_covered (FloorLit.v, literal) define
+   exactly these, over all parameter assignments [pwf] *)
+Theorem C09_floor_formula_is_join : forall rs, ranges_ok rs ->
+  forall X Y,
+  (forall x, In x X -> pwf rs x) -> (forall y, In y Y -> pwf rs y) ->
+  forall p, pwf rs p ->
+  (floors_lit rs X Y p = true <-> In p (map (floor rs X) Y)).
+Proof. exact floors_lit_correct. Qed.
+
+Theorem C09_ceiling_formula_is_meet : forall rs, ranges_ok rs ->
+  forall X Y,
+  (forall x, In x X -> pwf rs x) -> (forall y, In y Y -> pwf rs y) ->
+  forall p, pwf rs p ->
+  (ceilings_lit rs X Y p = true <-> In p (map (ceil rs Y) X)).
+Proof. exact ceilings_lit_correct. Qed.
+
+Example C09_floor_formula_instance :
+  let f := fun_of_mask 126 in
+  let X := embed rs3 f in
+  let Y := primes rs3 f (fun _ => true) in
+  forallb (fun p => Bool.eqb (floors_lit rs3 X Y p)
+                             (mem_box (map (floor rs3 X) Y) p) &&
+                    Bool.eqb (ceilings_lit rs3 X Y p)
+                             (mem_box (map (ceil rs3 Y) X) p))
+          (params rs3) = true.
+Proof. vm_compute. reflexivity. Qed.
+
+(* two ingredients of exactness, for all instances and picks: the greedy
+   independent set gives a valid lower bound and the greedy cover a valid
+   upper bound on the size of covers by primes *)
+Theorem C09_partial_lower_bound : forall rs pick f care K,
+  (forall s b, pick s = Some b -> In b s) ->
+  prime_cover rs f care K ->
+  forall fuel,
+  (indep_size pick fuel (embed rs f) (primes rs f care) <= length K)%nat.
+Proof. exact lower_bound_valid. Qed.
+
+Theorem C09_partial_upper_bound : forall rs pick f care c0 fuel,
+  (forall s b, pick s = Some b -> In b s) ->
+  some_cover pick fuel (embed rs f) (primes rs f care) = Some c0 ->
+  prime_cover rs f care c0.
+Proof. exact upper_bound_valid. Qed.
+
 (* the unbounded statement: NOT proved (Coudert's reduction theorems and the
    exactness of branch and bound; cf. spec/mincover/*.tla in the repository) *)
 Definition C09_full : Prop :=
@@ -124,6 +169,10 @@ Print Assumptions C09_min_cover_size_correct.
 Print Assumptions C09_min_cover_ref_correct.
 Print Assumptions C09_primes_cover.
 Print Assumptions C09_minimize_sound.
+Print Assumptions C09_floor_formula_is_join.
+Print Assumptions C09_ceiling_formula_is_meet.
+Print Assumptions C09_partial_lower_bound.
+Print Assumptions C09_partial_upper_bound.
 Print Assumptions C09_bounded_3.
 Print Assumptions C09_bounded_3_pick_last.
 Print Assumptions C09_bounded_4.
